@@ -335,6 +335,10 @@ def run(ctx):
     # the numbers the renderer prints with Display); a tolerant PartialEq makes 0.1+0.2 == 0.3 while the texts differ (seed c16-f)
     import eqhash as _eq
     _eq.rule_derived_eq(ctx)
+    # ... and Term equality must be the reviewed semantic one: a coarser `==` makes terms equal that render differently (seed c16-v: `||`
+    # in the image clause of PartialEq)
+    _st16, _cap16 = _eq.rule_H_STORAGE(ctx)
+    _eq.rule_H_EQSHAPE(ctx, _st16, _cap16)
     # naming-law lints over the modules this property lives in (sibling slips: truth<->budget, stamp<->punctuation, left<->right, swapped arguments)
     import roles as _roles
     _roles.rule_R_ROLE(ctx, modules=('conversion::string::typst_formatter', 'enum_narsese::'))
